@@ -143,7 +143,7 @@ def other_exprs():
     from . import opbuild
     rng = random.Random(13)
     out = []
-    for cls, kw in [("Root", {}), ("KronAddedDiag", {}), ("BatchRepeat", {"child": "Dense"}),
+    for cls, kw in [("Diag", {}), ("Root", {}), ("KronAddedDiag", {}), ("BatchRepeat", {"child": "Dense"}),
                     ("LowRankRootAddedDiag", {}), ("BlockDiag", {"child": "Dense"}), ("PsdSum", {"child": "Dense"}),
                     ("SumKron", {})]:
         import torch
@@ -459,12 +459,18 @@ def case_lit(rec, I=None):
     def mk(c, p):
         return "(%s %s %d %s %s)" % (c, I.get("p", "profile", pf_lit(p)[1:-1]), p["n"], common.coq_bool(p["square"]), fresh())
     objs = [mk("mko", p) for p in rec["init"]]
+    profs = list(rec["init"])
     evs = []
     for stp in rec["steps"]:
         if stp.get("skipped"):
             break
         ev = stp["ev"]
+        if ev[0] in ("q", "seed") and ev[1] < len(profs) and profs[ev[1]].get("child_only"):
+            break       # a Diag-family child: only its to_dense is transcribed
         if ev[0] == "q":
+            qname = {"inv_quad_logdet": "inv_quad_logdet"}.get(ev[2][0], ev[2][0])
+            if ev[1] < len(profs) and qname in profs[ev[1]].get("queries_off", ()):
+                break   # this class overrides the query (not transcribed): the comparable part of the history ends here
             e = "EQuery %d %s" % (ev[1], I.get("q", "query", query_lit(ev[2])))
         elif ev[0] == "d":
             if stp["raised"]:
@@ -476,6 +482,7 @@ def case_lit(rec, I=None):
                 return None
             kids = [mk("mkn", p) for p in ps[:-1]]
             res = mk("mkn", ps[-1])
+            profs.extend(ps)
             e = "EDerive %d %s [%s] %s" % (ev[1], deriv_lit(ev[2], stp), "; ".join(kids), res)
         elif ev[0] == "set":
             e = "ESet %s" % I.get("st", "settings", st_lit(ev[1])[1:-1])
@@ -632,16 +639,38 @@ def problems_of(label, rec):
                 inherited = [c for c in cs if c != "kernel"][0]
         if not stp.get("settings_ok", True):
             out.append((si, {"cause": "settings-not-applied", "op": op, "fail": "settings", "root": label}, "settings"))
+        def had(nm):
+            return tgt is not None and tgt < len(prev_keys) and any(
+                k[0] == "full" and k[1] == ["str", nm] for k in prev_keys[tgt])
+        had_symeig = had("symeig")
+        # _choose_root_method prefers a method whose result is already cached: symeig > diagonalization > lanczos
+        chosen = "symeig" if had_symeig else ("diagonalization" if had("diagonalization") else None)
+        explicit = None
+        if ev[0] == "q" and op in ("root_decomposition", "root_inv_decomposition"):
+            pos = 0 if op == "root_decomposition" else 2
+            if len(ev[2][1]) > pos and ev[2][1][pos] != ["none"]:
+                explicit = ev[2][1][pos][1]
+            for k_, v_ in ev[2][2]:
+                if k_ == "method" and v_ != ["none"]:
+                    explicit = v_[1]
+        by_choice = (chosen is not None and ev[0] in ("q", "d")
+                     and op in ("root_decomposition", "root_inv_decomposition", "sample", "add_low_rank", "cat_rows")
+                     and explicit in (None, "pinverse"))
+        choice_cause = None
         if not stp["transparent"]:
-            had_symeig = tgt is not None and tgt < len(prev_keys) and any(
-                k[0] == "full" and k[1] == ["str", "symeig"] for k in prev_keys[tgt])
-            if inherited:
+            if inherited and inherited != "kernel":
                 cause = inherited
             elif op in ("eigh", "eigvalsh") and had_symeig:
                 cause = "%s:symeig-entry" % op
+            elif by_choice and stp.get("fresh_valid") is True:
+                # the answer is invalid only because the cache made _choose_root_method pick a method whose result
+                # is invalid for this class (a fresh object picks another one)
+                cause = choice_cause = "cache-chosen-method"
+            elif inherited:
+                cause = inherited
             else:
                 cause = "%s:%s" % (op, "raised" if stp.get("raised") else "invalid-answer")
-            out.append((si, {"cause": cause, "op": op, "fail": "answer", "root": label,
+            out.append((si, {"cause": cause, "op": op, "fail": "answer", "root": label, "method": chosen,
                              "consequence": bool(inherited)}, stp.get("why") or stp.get("exc") or ""))
         cur = {}
         for (bi, bp, why) in stp["bad"]:
@@ -656,6 +685,11 @@ def problems_of(label, rec):
                 newc[ident] = cause_of[ident]
                 continue
             wc = why_class(why)
+            if choice_cause and bi == tgt:
+                newc[ident] = choice_cause
+                out.append((si, {"cause": choice_cause, "op": op, "fail": "entry", "entry": kk[1][1], "root": label,
+                                 "method": chosen, "consequence": False}, why))
+                continue
             if ev[0] == "q" and bi == tgt and stp.get("valid") is False and stp.get("fresh_valid") is False:
                 # the query's own answer is invalid on a fresh clone as well: the class's factorization itself is
                 # wrong (C04-C06), the entry it leaves behind is no cache effect
